@@ -4,6 +4,9 @@ import (
 	"crypto/md5"
 	"encoding/binary"
 	"fmt"
+	"hash/adler32"
+	"hash/crc32"
+	"hash/fnv"
 	"sort"
 	"strings"
 	"sync"
@@ -66,6 +69,44 @@ func collisions() [][3]interface{} {
 		}
 	})
 	return collPairs
+}
+
+// hashCollidingKeys returns pairs of distinct keys that have the same value
+// under a cheap 32-bit hash in common use (FNV-1, FNV-1a, CRC-32 IEEE and
+// Castagnoli, Adler-32), found by a birthday search.  Routing is a function of
+// the key: whatever a lookup remembers about earlier keys must not confuse two
+// keys that merely look alike to such a hash.
+var (
+	hashCollOnce  sync.Once
+	hashCollPairs [][2]string
+)
+
+func hashCollidingKeys() [][2]string {
+	hashCollOnce.Do(func() {
+		cast := crc32.MakeTable(crc32.Castagnoli)
+		fams := []func([]byte) uint32{
+			func(b []byte) uint32 { h := fnv.New32a(); h.Write(b); return h.Sum32() },
+			func(b []byte) uint32 { h := fnv.New32(); h.Write(b); return h.Sum32() },
+			crc32.ChecksumIEEE,
+			func(b []byte) uint32 { return crc32.Checksum(b, cast) },
+			adler32.Checksum,
+		}
+		for _, f := range fams {
+			seen := make(map[uint32]int, 400000)
+			found := 0
+			for i := 0; i < 400000 && found < 4; i++ {
+				k := fmt.Sprintf("user:%d", i)
+				h := f([]byte(k))
+				if j, ok := seen[h]; ok {
+					hashCollPairs = append(hashCollPairs, [2]string{fmt.Sprintf("user:%d", j), k})
+					found++
+				} else {
+					seen[h] = i
+				}
+			}
+		}
+	})
+	return hashCollPairs
 }
 
 func permutations(n int) [][]int {
@@ -151,6 +192,11 @@ func TestC19(t *testing.T) {
 		for i := range keys {
 			keys[i] = []byte(fmt.Sprintf("key-%d-%d", keySeed, i))
 		}
+		// look-alike keys (equal under a common cheap 32-bit hash), adjacent and far apart
+		for pi, pr := range hashCollidingKeys() {
+			keys = append(keys, []byte(pr[0]), []byte(pr[1]))
+			keys[(pi*2)%nkeys], keys[(pi*2+1)%nkeys] = []byte(pr[1]), []byte(pr[0])
+		}
 		locs := probeLocations(labels, nil)
 
 		base := ringOf(labels)
@@ -179,7 +225,7 @@ func TestC19(t *testing.T) {
 			perms = append(perms, rev)
 		}
 		nonIdentity := false
-		for _, perm := range perms {
+		for pn, perm := range perms {
 			pl := permuted(labels, perm)
 			if strings.Join(pl, ",") != strings.Join(labels, ",") {
 				nonIdentity = true
@@ -190,9 +236,16 @@ func TestC19(t *testing.T) {
 					t.Fatalf("C19: ring location %d is owned by %s when nodes are listed as %v but by %s when listed as %v", l, ownerLoc[i], labels, got, pl)
 				}
 			}
-			for i, k := range keys {
+			// the keys are asked for in the opposite order on every other ring: what a
+			// ring was asked before must not matter
+			for x := range keys {
+				i := x
+				if pn%2 == 0 {
+					i = len(keys) - 1 - x
+				}
+				k := keys[i]
 				if got := r.Hash(k).Label(); got != ownerKey[i] {
-					t.Fatalf("C19: key %q is routed to %s when nodes are listed as %v but to %s when listed as %v", k, ownerKey[i], labels, got, pl)
+					t.Fatalf("C19: key %q is routed to %s when nodes are listed as %v (keys asked in generated order) but to %s when listed as %v (keys asked in %s order)", k, ownerKey[i], labels, got, pl, map[bool]string{true: "the opposite", false: "the same"}[pn%2 == 0])
 				}
 			}
 		}
@@ -328,6 +381,9 @@ func TestC19EndToEnd(t *testing.T) {
 			break
 		}
 	}
+	for _, pr := range hashCollidingKeys() {
+		keys = append(keys, pr[0], pr[1])
+	}
 	orders := permutations(3)
 	for wi, wo := range orders {
 		hw, err := cluster.NewHandler(permuted(addrs, wo), "w")
@@ -347,7 +403,11 @@ func TestC19EndToEnd(t *testing.T) {
 			if err != nil {
 				t.Fatal(err)
 			}
-			for _, k := range keys {
+			for x := range keys {
+				k := keys[x]
+				if ri%2 == 1 { // every other reader asks in the opposite order
+					k = keys[len(keys)-1-x]
+				}
 				res, _ := execHandler(hr, wire.Cmd{Kind: wire.Get, Keys: []string{k}}, 0)
 				if res.Err != nil || res.Hits[0] == nil || string(res.Hits[0].Value) != "v-"+k || res.Hits[0].Flags != 7 {
 					p := rec.Violation("TestC19EndToEnd", map[string]interface{}{"nodes": addrs, "set_order": wo, "get_order": ro, "key": k})
